@@ -270,7 +270,11 @@ def handleRun (hist hdr body : String) (rest0 : List String) : Option String := 
   let _ ← kv "S" sS
   let jt ← parsePairs (← kv "J" sJ)
   let co (x : Nat) : Nat := match jt.find? (fun p => p.1 == x) with | some p => p.2 | none => x
-  let sender ← (← kv "from" sFrom).toNat?
+  -- `from=<sender>` or `from=<sender>/<original sender>` (MsgMeta.OriginalFrom, a dimension of its own)
+  let fromParts := (← kv "from" sFrom).splitOn "/"
+  guard (fromParts.length ≤ 2)
+  let sender ← (fromParts.getD 0 "").toNat?
+  let osender ← (fromParts.getD 1 (fromParts.getD 0 "")).toNat?
   let to ← parseIdxs (← kv "to" sTo)
   let orc ← parsePairs (← kv "orc" sOrc)
   let f := (← kv "f" sF).toList
@@ -284,7 +288,7 @@ def handleRun (hist hdr body : String) (rest0 : List String) : Option String := 
   let h ← parseHdr hdr
   let b ← parseBody body
   let conn : Option Conn := if auth == 0 then none else if auth == 1 then some ⟨0, 0⟩ else some ⟨1000001, 1000002⟩
-  let mm : MsgMeta := ⟨1000000, sender, fb 4, fb 3, orc, fb 0, fb 1, conn, fb 2⟩
+  let mm : MsgMeta := ⟨1000000, osender, fb 4, fb 3, orc, fb 0, fb 1, conn, fb 2⟩
   let pre ← parsePre (← kv "pre" sPre) (writeHeader h).length (b.getD 0 0)
   let obsA ← runOne co pre h b mm sender to (dsn != 0) unrep hist
   if peer == "-" then pure obsA else
